@@ -29,6 +29,11 @@ CLAIMED["C18"] = dict(
    note="Trusted: Coq kernel; extraction + OCaml driver; sync.Mutex/sync.Cond and os.File ReadAt/WriteAt/Truncate are runtime (the model serialises every operation under the mutex; a parked read is re-evaluated after each broadcast). 64-bit position overflow not modelled (positions are unbounded N). Writes larger than the capacity while a reader is parked are not generated (outcome depends on scheduling between write chunks).",
    technique="Coq proof (refinement to an infinite log, invariant by induction over writes) + differential run on op sequences",
    design="DESIGN.md section 5, C18")
+CLAIMED["C09"] = dict(
+   text="Theorems in coq/Props/C09.v (closed, no axioms) over a Gallina machine whose events are the atomic sections of pipe.go (readSome, writeSome, RClose, WClose, Buffered, Available; sync.Cond Signal wakes a parked thread, is lost otherwise): for EVERY capacity and EVERY event list (every interleaving of one reader, one writer and the closes, every chunking, wrap-around included) the bytes delivered to the reader followed by the buffered bytes equal the bytes accepted from the writer (FIFO refinement of the ring, reset-on-drain included); a reader is parked only while the buffer is empty and a writer only while it is full and nobody closed (no lost wake-up: invariant), never both parked (deadlock freedom); a non-parked side always takes its step; after the writer closes reads drain the buffer and then return the writer's error (EOF by default); after the reader closes reads return closed-pipe, writes and Buffered the reader's error, and nobody parks. Differential run: op sequences on memory (4096/8192) and file (4 MiB) pipes, operations predicted to park issued on goroutines and released by the other side or a close, vs the extracted machine under the eager schedule, plus an independent FIFO/deadlock oracle.",
+   note="Trusted: Coq kernel; extraction + OCaml driver; sync.Mutex/sync.Cond semantics and os.File ReadAt/WriteAt/Truncate are runtime (represented as atomic events); one reader goroutine and one writer goroutine (the rl/wl locks that serialise further callers are not modelled); positions are unbounded N (no 2^64 overflow). Real runs sample the interleavings (eager schedule); the theorems cover all of them.",
+   technique="Coq proof (invariant over an event machine, refinement to a FIFO queue) + differential run on op sequences with parked operations",
+   design="DESIGN.md section 5, C09")
 NOT_YET = {}
 props = [json.loads(l) for l in open(os.path.join(V, "properties.jsonl"))]
 hooks = subprocess.run(["git", "-C", "/repo", "log", "--format=%H %s"], capture_output=True, text=True).stdout.strip().split("\n")
